@@ -25,6 +25,8 @@ func main() {
 		cmdCheck(os.Args[2:])
 	case "list":
 		cmdList(os.Args[2:])
+	case "genlocks":
+		cmdGenLocks(os.Args[2:])
 	case "replay":
 		cmdReplay(os.Args[2:])
 	default:
@@ -43,6 +45,7 @@ func cmdVerify(args []string) {
 	keep := fs.Bool("keep", false, "keep smt files")
 	dump := fs.Bool("v", false, "verbose: print failed obligations' goals")
 	root := fs.String("root", repoRoot, "repository root")
+	lockType := fs.String("locktype", "", "generate lock-discipline units for this type (pkg.Type)")
 	fs.Parse(args)
 	pats := allPatterns
 	if *pkgs != "" {
@@ -78,8 +81,22 @@ func cmdVerify(args []string) {
 		}
 		units = append(units, prog.GenFunc(k, GenOpts{}))
 	}
+	if *lockType != "" {
+		units = nil
+		tc := prog.cs.Types[*lockType]
+		if tc == nil {
+			fmt.Fprintln(os.Stderr, "no type contract", *lockType)
+			os.Exit(2)
+		}
+		for _, mk := range prog.exportedMethods(tc) {
+			if len(want) > 0 && !want[mk] {
+				continue
+			}
+			units = append(units, prog.GenFunc(mk, GenOpts{LockOnly: true, TC: tc}))
+		}
+	}
 	for _, a := range prog.cs.Axioms {
-		if !a.Lemma {
+		if !a.Lemma || *lockType != "" {
 			continue
 		}
 		k := "lemma:" + a.Pkg + "." + a.Name
